@@ -20,6 +20,7 @@ import (
 	"fmt"
 	"io"
 	"log/slog"
+	"math/big"
 	"math/bits"
 	"net"
 	"os"
@@ -39,7 +40,7 @@ import (
 
 func init() { register(Engine{"ccb", runCcb}) }
 
-const ccbGrace = 2 * time.Second
+const ccbGrace = 5 * time.Second // generous upper bound; every wait on it returns as soon as the awaited event happens
 
 // ---------------------------------------------------------------------------------------
 // generator
@@ -489,6 +490,50 @@ func ccbContact(b *ccbBroker, plan ccbPlan, bad bool) addresses.CCBContact {
 
 var ccbIDMu sync.Mutex
 var ccbIDsSeen = map[string]string{}
+
+// ccbIDsObserved: the connect ids the scripted BROKERS received in the requests of real Dials (every
+// path that asks a broker: standard, proxied, nested), in order of observation.
+var ccbIDsObserved []string
+
+// ccbRelatedness: minimum Hamming distance over all pairs of 160-bit ids (independent random values
+// differ in about 80 bits; fewer than 40 has probability below 1e-10 per pair), and how many
+// neighbouring ids differ by the same arithmetic step as the pair before (a counter / stepped seed).
+func ccbRelatedness(ids []string) (minHam int, a, b string, sameStep int, usable int) {
+	minHam = 160
+	var vals [][]byte
+	var keep []string
+	for _, id := range ids {
+		if v, err := hex.DecodeString(id); err == nil && len(v) == 20 {
+			vals = append(vals, v)
+			keep = append(keep, id)
+		}
+	}
+	usable = len(vals)
+	if usable > 1500 {
+		vals, keep = vals[:1500], keep[:1500]
+	}
+	for i := range vals {
+		for j := i + 1; j < len(vals); j++ {
+			h := 0
+			for k := range vals[i] {
+				h += bits.OnesCount8(vals[i][k] ^ vals[j][k])
+			}
+			if h < minHam {
+				minHam, a, b = h, keep[i], keep[j]
+			}
+		}
+	}
+	var prevStep *big.Int
+	for i := 1; i < len(vals); i++ {
+		step := new(big.Int).Sub(new(big.Int).SetBytes(vals[i]), new(big.Int).SetBytes(vals[i-1]))
+		if prevStep != nil && step.Cmp(prevStep) == 0 {
+			sameStep++
+		}
+		prevStep = step
+	}
+	return
+}
+
 var ccbIPCounter int
 
 // ccbNextIP hands every scenario its own loopback address (all of 127.0.0.0/8 is local on
@@ -927,12 +972,10 @@ func ccbDialCase(sp ccbDialSpec, old []string) *ccbOut {
 		}
 		_ = b
 		if failed && !matchedBefore {
-			want := "brokerFailure:" + failMsg
-			gotc := ""
-			if err != nil {
-				gotc = ccbDialErrClass(err)
-			}
-			okc := strings.Contains(gotc, want) || (raced && conn != nil)
+			// "a failure reported by the broker ends the attempt with that error": the dial's error
+			// carries the text the broker sent (as a substring / wrapped cause) — however the library
+			// words the rest of its message
+			okc := (err != nil && strings.Contains(err.Error(), failMsg)) || (raced && conn != nil)
 			if !okc {
 				o.violate("C20:broker-failure-not-reported", "the broker reported a failure but the dial did not end with that error", "error carrying \"broker failure: "+failMsg+"\"", fmt.Sprintf("conn=%v err=%v", conn != nil, err))
 			} else if err != nil && tRet.Sub(t0) > sp.Timeout/2 && sp.Timeout >= 2*time.Second {
@@ -952,6 +995,7 @@ func ccbDialCase(sp ccbDialSpec, old []string) *ccbOut {
 				o.violate("C20:id-reused", "a connect id was used for more than one request", "a fresh id per attempt", "id of "+prev+" reused in "+sp.Label)
 			}
 			ccbIDsSeen[b.id] = fmt.Sprintf("%s/broker%d", sp.Label, b.Pos)
+			ccbIDsObserved = append(ccbIDsObserved, b.id)
 		}
 		b.mu.Unlock()
 	}
@@ -1287,6 +1331,23 @@ func runCcb(c *Ctx) error {
 	}
 	wg.Wait()
 	outs = append(outs, dres...)
+	// "unguessable" on the Dial path: the ids that really travelled to the brokers, not ids obtained by
+	// calling the generator directly
+	if nDial > 0 {
+		ccbIDMu.Lock()
+		ids := append([]string{}, ccbIDsObserved...)
+		ccbIDMu.Unlock()
+		minHam, ia, ib, sameStep, usable := ccbRelatedness(ids)
+		c.Res.Distribution["dial:connect-ids-observed-at-brokers"] += usable
+		c.Count(fmt.Sprintf("dial:observed-ids:min-hamming-distance-of-any-pair>=40:%v", minHam >= 40))
+		if usable < 50 {
+			c.Res.Notes = append(c.Res.Notes, fmt.Sprintf("only %d connect ids were observed at the brokers: relatedness of Dial's ids not assessed", usable))
+		} else if minHam < 40 || sameStep > 0 {
+			c.Violate(Violation{Property: "C20", Key: "C20:dial-connect-id-predictable", What: "the connect ids real Dials sent to the brokers are closely related (two of them differ in few bits, or neighbours differ by a constant step): whoever saw one request's id can derive others and present them on reverse-connect listeners",
+				Ops:      []string{fmt.Sprintf("# %d connect ids observed by the scripted brokers during the dial layer (standard, proxied and nested requests); all pairs compared", usable)},
+				Expected: "pairwise about 80 of 160 bits differ (never fewer than 40); no constant step between neighbours", Observed: fmt.Sprintf("minimum %d bits (%s vs %s); %d neighbours with a repeated step", minHam, ia, ib, sameStep)})
+		}
+	}
 	c.Res.Notes = append(c.Res.Notes, fmt.Sprintf("layers: accept %.1fs, proxy %.1fs, dial %.1fs", tA.Seconds(), tB.Seconds(), (time.Since(t0)-tA-tB).Seconds()))
 
 	var cases []Case
